@@ -667,6 +667,7 @@ class Extract:
         self.letty = []
         self.maps = []
         self.maps_each = []
+        self.maps_re = []
         self.lift_anchor = None
         self.contract = []
         self.loops = {}
@@ -780,6 +781,13 @@ def parse_template(path):
                 if not why.strip():
                     raise Undecided('%s: map-each without reason: %r' % (origin, ln))
                 cur.maps_each.append((a.strip(), b.strip(), why.strip()))
+            elif key == 'map-re':
+                # R8c with a regular expression: every match (possibly none) is rewritten alike
+                body, _, why = val.partition(' ## ')
+                a, b = body.split(' => ')
+                if not why.strip():
+                    raise Undecided('%s: map-re without reason: %r' % (origin, ln))
+                cur.maps_re.append((a.strip(), b.strip(), why.strip()))
             elif key == 'contract':
                 target = cur.contract
             elif key.startswith('loop-expect '):
@@ -928,6 +936,11 @@ def render_extract(ex, vac=False, strip_proof=False):
         log.append({'rule': 'R8c', 'replaced': a, 'with': b, 'n': body.count(a), 'why': why})
         body = body.replace(a, b)
         log[-1]['reason'] = why
+    if len(ex.maps_re) > 1:
+        raise Undecided('R8c: more than one map-re requested')
+    for a, b, why in ex.maps_re:
+        body, n_ = re.subn(a, b, body)
+        log.append({'rule': 'R8c', 'replaced_regex': a, 'with': b, 'n': n_, 'why': why, 'reason': why})
     for a, b in ex.letty:
         body = letty_replace(body, a, b, log)
     lifted_fn_text = ''
